@@ -58,7 +58,69 @@ let show_nx (st, ede) =
   (match st with NxExists -> "Exists" | NxNothing -> "Nothing" | NxDoesNotExist ce -> "DoesNotExist " ^ hex_of_name ce)
   ^ " " ^ string_of_int (int_of_n ede)
 
+(* NSEC3 cases: the hash function is a table computed by the harness with the library's nsec3_hash *)
+let htable (w : string) : (int * string * string * string) list =
+  if w = "-" then [] else
+  List.map (fun e -> match String.split_on_char ':' e with
+    | [i; s; n; h] -> (int_of_string i, s, n, h) | _ -> failwith "bad hash table entry") (String.split_on_char ',' w)
+let hfun tbl (it : n) (salt : n list) (nm : n list list) : n list =
+  let key = (int_of_n it, hex_of_bytes salt, hex_of_name nm) in
+  let rec go = function
+    | [] -> failwith ("hash table has no entry for " ^ hex_of_name nm)
+    | (i, s, n, h) :: r -> if (i, s, n) = key then bytes_of_hex h else go r in
+  go tbl
+let rec n3groups = function
+  | [] -> []
+  | nrr :: isn3 :: secure :: signer :: alg :: oo :: iter :: salt :: label :: next :: types :: rest ->
+      { h_nrr = n_of_s nrr; h_is_nsec3 = b_of isn3; h_secure = b_of secure; h_signer = name_of_hex signer; h_alg = n_of_s alg;
+        h_optout = b_of oo; h_iter = n_of_s iter; h_salt = bytes_of_hex salt; h_label = bytes_of_hex label; h_next = bytes_of_hex next;
+        h_types = types_of types } :: n3groups rest
+  | _ -> failwith "bad nsec3 group words"
+let si e = string_of_int (int_of_n e)
+let show_n3nx (st, e) = (match st with N3DNE ce -> "DNE " ^ hex_of_name ce | N3DNEInsecure ce -> "DNEI " ^ hex_of_name ce
+  | N3Bogus -> "Bogus" | N3Insecure -> "Insecure" | N3Nothing -> "Nothing") ^ " " ^ si e
+let show_noce (st, e) = (match st with NcDNE -> "DNE" | NcDNEInsecure -> "DNEI" | NcNothing -> "Nothing" | NcBogus -> "Bogus") ^ " " ^ si e
+let show_n3st (st, e) = (match st with S3NoData -> "NoData" | S3NoDataInsecure -> "NoDataInsecure" | S3Bogus -> "Bogus" | S3Nothing -> "Nothing") ^ " " ^ si e
+
+(* child <maxbad> <nds> <nkeys> <nsigs> ds:(alg tag dt digest)* key:(alg tag d1 d2 d4)* sig:(tag validkeys)* *)
+let child_case maxbad nds nkeys nsigs ws =
+  let rec take k l acc = if k = 0 then (List.rev acc, l) else match l with [] -> failwith "short child case" | x :: r -> take (k - 1) r (x :: acc) in
+  let (dsw, r1) = take (4 * nds) ws [] in
+  let (kw, r2) = take (5 * nkeys) r1 [] in
+  let (sw, r3) = take (2 * nsigs) r2 [] in
+  if r3 <> [] then failwith "long child case";
+  let rec dss = function [] -> [] | a :: t :: dt :: d :: r -> { d_alg = n_of_s a; d_tag = n_of_s t; d_dt = n_of_s dt; d_digest = bytes_of_hex d } :: dss r | _ -> failwith "ds" in
+  let rec keys i = function [] -> [] | a :: t :: d1 :: d2 :: d4 :: r -> ({ k_alg = n_of_s a; k_tag = n_of_s t; k_id = n_of_int i }, (d1, d2, d4)) :: keys (i + 1) r | _ -> failwith "key" in
+  let rec sigs i = function [] -> [] | t :: v :: r -> ({ sg_tag = n_of_s t; sg_id = n_of_int i }, (if v = "-" then [] else List.map int_of_string (String.split_on_char ',' v))) :: sigs (i + 1) r | _ -> failwith "sig" in
+  let ks = keys 0 kw and ss = sigs 0 sw in
+  let dg k dt = let (_, (d1, d2, d4)) = List.find (fun (k', _) -> k'.k_id = k.k_id) ks in
+    bytes_of_hex (match int_of_n dt with 1 -> d1 | 2 -> d2 | 4 -> d4 | _ -> "-") in
+  let vf k s = let (_, v) = List.find (fun (s', _) -> s'.sg_id = s.sg_id) ss in List.mem (int_of_n k.k_id) v in
+  str_vstate (child_node_state dg vf (dss dsw) (List.map fst ks) (List.map fst ss) (n_of_s maxbad))
+
+let rec dgroups = function
+  | [] -> []
+  | rt :: owner :: valid :: ce :: next :: types :: alg :: oo :: iter :: salt :: nexth :: rest ->
+      { dg_rtype = n_of_s rt; dg_owner = name_of_hex owner; dg_valid = b_of valid; dg_ce = oname_of_hex ce; dg_next = name_of_hex next;
+        dg_types = types_of types; dg_alg = n_of_s alg; dg_optout = b_of oo; dg_iter = n_of_s iter; dg_salt = bytes_of_hex salt;
+        dg_nexth = bytes_of_hex nexth } :: dgroups rest
+  | _ -> failwith "bad ds-proof group words"
+
 let handle = function
+  | "dsproof" :: t :: ci :: cb :: tbl :: gs ->
+      show_o (function InsecureDelegation -> "Insecure" | _ -> "Bogus")
+        (no_ds_decision (hfun (htable tbl)) (n_of_s ci) (n_of_s cb) (name_of_hex t) (dgroups gs))
+  | "child" :: maxbad :: nds :: nkeys :: nsigs :: ws -> child_case maxbad (int_of_string nds) (int_of_string nkeys) (int_of_string nsigs) ws
+  | "n3" :: f :: t :: qt :: signer :: ci :: cb :: tbl :: gs ->
+      let h = hfun (htable tbl) and t = name_of_hex t and s = name_of_hex signer and g = n3groups gs in
+      let ci = n_of_s ci and cb = n_of_s cb and qt = n_of_s qt in
+      (match f with
+       | "notex" -> show_o show_n3nx (nsec3_for_not_exists h ci cb t g s)
+       | "noce" -> show_o show_noce (nsec3_for_not_exists_no_ce h ci cb t g s)
+       | "nodata" -> show_o show_n3st (nsec3_for_nodata h ci cb t g qt s)
+       | "nxdom" -> show_o show_n3nx (nsec3_for_nxdomain h ci cb t g s)
+       | "ndwild" -> show_o show_n3st (nsec3_for_nodata_wildcard h ci cb t g qt s)
+       | _ -> failwith "bad nsec3 function")
   | ["inr"; t; o; n] -> sb (c14_nsec_in_range (name_of_hex t) (name_of_hex o) (name_of_hex n))
   | ["inr3"; t; o; n] -> sb (c14_nsec3_in_range (bytes_of_hex t) (bytes_of_hex o) (bytes_of_hex n))
   | ["sup3"; h] -> sb (c14_supported_nsec3_hash (n_of_s h))
